@@ -22,6 +22,16 @@ CHECKS = {
             "Every case of a dense product over the dimensions the MD5/count path depends on, each through three deliveries and five encoding modes; STREAMINFO must state the source format, the delivered count and the reference MD5, identically in all of them.",
             "MD5 from the md-5 crate over the harness's serialisation; the schedule quantifier for the hashing thread is covered by the loom harness of C05.",
             "DESIGN.md 3 C03"),
+    "C05": ("model_checking",
+            "stateless model checking of the real par.rs under loom (DPOR, preemption bound 2/3, every scenario in its own process) + explicit-state exploration of a protocol model with stateright, bound to the code by replaying every loom execution's event log through the model; breadth over inputs with real threads",
+            "Every interleaving (up to the preemption bound) of the feeding, encoding and hashing threads of the real implementation is executed for a grid of worker counts, environment overrides, frame counts and deliveries, and its bytes compared with the single-thread stream and the frame-level assembly; a protocol model explored exhaustively extends the schedule quantifier to more workers/frames, and is validated against the implementation trace by trace.",
+            "loom models std::sync/std::thread; the bounded-channel stand-in models crossbeam-channel; loom limited to 3 workers; thread-local scratch is shared by loom's coroutines (history dependence is C10's subject); the real-thread breadth part samples one OS schedule per encode and is supplementary.",
+            "DESIGN.md 3 C05"),
+    "C06": ("model_checking",
+            "stateless model checking of the real par.rs under loom with scripted source faults (read error at every position, out-of-range sample in every block, pairs) + explicit-state exploration of the protocol model under the same fault scripts (stateright), traces replayed through the model",
+            "For every fault script and every interleaving up to the preemption bound the call must return the single-thread error kind, with no panic in any thread, no thread alive at return and no deadlock; the model adds deadlock freedom and termination for more workers/frames with unbounded preemptions.",
+            "Same trusted base as C05; faults limited to the two kinds the statement names; a loom deadlock report aborts the child process and is classified from its panic journal.",
+            "DESIGN.md 3 C06"),
     "C08": ("exploration",
             "exhaustive enumeration of every component of every stream of U_2/U_3 + G9 (encoder- and parser-produced, before/after precompute) and of constructor grids incl. the 2^32 quotient-sum switch; count_bits compared with three sinks",
             "count_bits() is compared with the bits received by MemSink<u8>, MemSink<u64> and a counting sink for every component reachable through public accessors, and for public constructors over grids that straddle every counting shortcut in the code.",
